@@ -191,10 +191,11 @@ def option_frame():
 
 
 class BuyOption(Strategy):
-    """deposits, then buys `amount` contracts of `instrument` in the first bar"""
-    def __init__(self, instrument, amount):
+    """deposits, then buys `amount` contracts of `instrument` in the first bar (optionally with a price cap relative to mark, and after
+    asking for a quote)"""
+    def __init__(self, instrument, amount, cap=None, quote_first=False):
         super().__init__()
-        self.instrument, self.amount = instrument, amount
+        self.instrument, self.amount, self.cap, self.quote_first = instrument, amount, cap, quote_first
         self.fills = ()
 
     def on_bar(self, snapshot: Snapshot):
@@ -202,7 +203,9 @@ class BuyOption(Strategy):
             m = list(self.broker.markets.values())[0]
             m.deposit(50)
             if self.amount > 0:
-                orders, _ = m.buy(self.instrument, self.amount)
+                if self.quote_first:
+                    m.estimate_cost(self.instrument, self.amount, "buy")
+                orders, _ = m.buy(self.instrument, self.amount, None, None, self.cap)
                 self.fills = tuple((str(o.price), str(o.amount)) for o in orders)
 
 
